@@ -1,7 +1,8 @@
 #!/bin/bash
-# usage: tools_confirm_all.sh <seed-dir>...  — confirms each seed in its own scratch worktree (/tmp/wt2-<pid>), log to .work/confirm.log
+# usage: tools_confirm_all.sh <seed-dir>...  — confirms each seed (/tmp/seedN-cXX-y) in its own scratch worktree (/tmp/wtN-cXX)
 for S in "$@"; do
-  B=$(basename $S)            # seed2-c09-c
-  P=$(echo $B | sed -E 's/seed2-(c[0-9]+)-.*/\1/')
-  /verif/tools_confirm_seed.sh $S /tmp/wt2-$P 2>&1 | tail -1
+  B=$(basename $S)            # seed3-c09-e
+  R=$(echo $B | sed -E 's/seed([0-9])-.*/\1/')
+  P=$(echo $B | sed -E 's/seed[0-9]-(c[0-9]+)-.*/\1/')
+  /verif/tools_confirm_seed.sh $S /tmp/wt$R-$P 2>&1 | tail -1
 done
